@@ -24,6 +24,9 @@ static bool opt_shared;
 static char *opt_MF;
 static char *opt_MT;
 static char *opt_o;
+#ifdef CHIBICC_VERIF
+static char *opt_verif_dump_ast;
+#endif
 
 static StringArray ld_extra_args;
 static StringArray std_include_paths;
@@ -47,6 +50,10 @@ static bool take_arg(char *arg) {
   for (int i = 0; i < sizeof(x) / sizeof(*x); i++)
     if (!strcmp(arg, x[i]))
       return true;
+#ifdef CHIBICC_VERIF
+  if (!strcmp(arg, "-verif-dump-ast"))
+    return true;
+#endif
   return false;
 }
 
@@ -315,6 +322,13 @@ static void parse_args(int argc, char **argv) {
       exit(0);
     }
 
+#ifdef CHIBICC_VERIF
+    if (!strcmp(argv[i], "-verif-dump-ast")) {
+      opt_verif_dump_ast = argv[++i];
+      continue;
+    }
+#endif
+
     // These options are ignored for now.
     if (!strncmp(argv[i], "-O", 2) ||
         !strncmp(argv[i], "-W", 2) ||
@@ -580,6 +594,15 @@ static void cc1(void) {
   }
 
   Obj *prog = parse(tok);
+
+#ifdef CHIBICC_VERIF
+  // Write what codegen() is about to read.
+  if (opt_verif_dump_ast) {
+    FILE *dump = open_file(opt_verif_dump_ast);
+    verif_dump_ast(prog, dump);
+    fclose(dump);
+  }
+#endif
 
   // Open a temporary output buffer.
   char *buf;
